@@ -72,7 +72,12 @@ def untainted_view(L, o):
 
 
 def unh(s):
-    return b"" if s in ("-", "") else bytes.fromhex(s)
+    if s in ("-", ""):
+        return b""
+    if s[0] == "r" and "x" in s:          # r<count>x<hexbyte>: a long run of one byte
+        n, c = s[1:].split("x")
+        return bytes([int(c, 16)]) * int(n)
+    return bytes.fromhex(s)
 
 
 def parse_obs(path):
@@ -264,9 +269,9 @@ def check_noabort_hypothesis(cases_path):
     bad, seen = [], 0
     for line in open(cases_path, errors="replace"):
         f = line.rstrip("\n").split("\t")
-        if len(f) < 3 or f[1] != "B":
+        if len(f) < 4 or f[1] != "B":
             continue
-        for op in f[2].split("|"):
+        for op in f[3].split("|"):
             for c in op.split(";"):
                 for r in c.lstrip("!").split(","):
                     q = r.split(".")
@@ -374,6 +379,7 @@ def run(ctx):
             jobs.append(("corpus%d" % i, "-replay %s" % p, "first"))
         jobs.append(("fresh", "-seed %d -n %d -len %d -tier %s" % (ctx.seed, nlogs, llen, ctx.tier), None))
         jobs.append(("pairs", "-pairs -tier %s" % ctx.tier, "pairs"))
+        jobs.append(("edge", "-edge", "pairs"))
 
     all_mism, all_fail, total = [], [], 0
     stats = dict(logs=0, skipped_panic=0, comparisons=0, runerr=0, raw_only_diffs=0, by_dim={})
